@@ -501,6 +501,10 @@ func checkC08(c *Ctx) *report.Result {
 		r.Ob("K-rom", n > 0 && len(romObjs) > 0, "run-phase stores examined against ROM storage", "", fmt.Sprintf("%d stores, %d ROM storage objects", n, len(romObjs)))
 		r.Instances["K-rom"] += n
 	}
+	r.Rule("K-own", "the ROM image a controller serves is its own: nothing in package memory that New or the run phase writes is package-level (rule G2 of C25 restricted to package memory)")
+	adopt(r, c.sibling("C25"), map[string]string{"G2": "K-own"}, "ROM storage shared between machines lets one machine's cartridge overwrite what another machine reads at 0000-7FFF", func(f report.Finding) bool {
+		return strings.Contains(f.Construct, "memory.") || strings.Contains(f.Where, "gameboy/memory/")
+	})
 	return r
 }
 
